@@ -473,6 +473,11 @@ class Doist(tyming.Tymist):
         if deeds is None:
             deeds = self.deeds
 
+        for i, deed in enumerate(deeds):  # interrupted mid cycle so restore cycle order
+            if not deed[0]:  # marker deed
+                deeds.rotate(-(i + 1))
+                break
+
         while(deeds):  # .close each remaining dog in deeds in reverse order
             dog, retime, doer = deeds.pop()  # pop it off in reverse (right side)
             if not dog:  # marker deed
@@ -522,15 +527,23 @@ class Doist(tyming.Tymist):
             if doer in self.doers and doer not in rdoers:
                 rdoers.append(doer)
         rdeeds = deque()  # fresh deque for deeds to remove
+        edeeds = deque()  # deeds to remove found after marker so earlier in cycle
         deeds = self.deeds  # edit update self.deeds in place
+        marked = False  # True means marker deed already passed
         for i in range(len(deeds)):  # iterate once over each deed
             dog, retyme, doer = deeds.popleft()
             if not dog:  # reappend the run through once marker deed
                 deeds.append((dog, retyme, doer))
+                marked = True
             elif doer in rdoers:  # found deed to remove and close
-                rdeeds.append((dog, retyme, doer))  # add to removal deque
+                if marked:  # already ran this cycle so earlier in cycle order
+                    edeeds.append((dog, retyme, doer))
+                else:
+                    rdeeds.append((dog, retyme, doer))  # add to removal deque
             else:  # keep deed do not remove and close
                 deeds.append((dog, retyme, doer))  # reappend
+        edeeds.extend(rdeeds)  # cycle order so exits are in reverse enter order
+        rdeeds = edeeds
 
         for doer in rdoers:  # update .doers to remove rdoers
             self.doers.remove(doer)
@@ -1353,6 +1366,11 @@ class DoDoer(Doer):
         if deeds is None:
             deeds = self.deeds
 
+        for i, deed in enumerate(deeds):  # interrupted mid cycle so restore cycle order
+            if not deed[0]:  # marker deed
+                deeds.rotate(-(i + 1))
+                break
+
         while(deeds):  # .close each remaining dog in deeds in reverse order
             dog, retime, doer = deeds.pop()  # pop it off in reverse (right side)
             if not dog:  # marker deed
@@ -1402,15 +1420,23 @@ class DoDoer(Doer):
             if doer in self.doers and doer not in rdoers:
                 rdoers.append(doer)
         rdeeds = deque()  # fresh deque for deeds to remove
+        edeeds = deque()  # deeds to remove found after marker so earlier in cycle
         deeds = self.deeds  # edit update self.deeds in place
+        marked = False  # True means marker deed already passed
         for i in range(len(deeds)):  # iterate once over each deed
             dog, retyme, doer = deeds.popleft()
             if not dog:  # reappend the run through once marker deed
                 deeds.append((dog, retyme, doer))
+                marked = True
             elif doer in rdoers:  # found deed to remove and close
-                rdeeds.append((dog, retyme, doer))  # add to removal deque
+                if marked:  # already ran this cycle so earlier in cycle order
+                    edeeds.append((dog, retyme, doer))
+                else:
+                    rdeeds.append((dog, retyme, doer))  # add to removal deque
             else:  # keep deed do not remove and close
                 deeds.append((dog, retyme, doer))  # reappend
+        edeeds.extend(rdeeds)  # cycle order so exits are in reverse enter order
+        rdeeds = edeeds
 
         for doer in rdoers:  # update .doers to remove rdoers
             self.doers.remove(doer)
